@@ -297,18 +297,24 @@ func (x *Exec) havocLoop(st *State, fr *Frame, to *ssa.BasicBlock, li *loopInfo)
 		x.assume(st, app(SBool, ">=", f, old), "call counter only grows")
 		st.ghost[k] = f
 		for i := 0; i < 6; i++ {
+			// placeholders get the sort the recorded value will have (string / bool arguments and
+			// results of statically known callees), integer / tag / identity sort otherwise
 			lk := fmt.Sprintf("lastarg:%s:%d", name, i)
 			if cur, ok := st.ghost[lk]; ok {
 				st.ghost[lk] = x.freshConst(st, "lastarg", cur.sort)
+			} else if s, ok := x.loopSortHint["a:"+name+":"+fmt.Sprint(i)]; ok {
+				st.ghost[lk] = x.freshConst(st, "lastarg", s)
 			} else {
 				st.ghost[lk] = x.freshConst(st, "lastarg", SInt)
 			}
 			rk := fmt.Sprintf("lastret:%s:%d", name, i)
 			if cur, ok := st.ghost[rk]; ok {
 				st.ghost[rk] = x.freshConst(st, "lastret", cur.sort)
+			} else if s, ok := x.loopSortHint["r:"+name+":"+fmt.Sprint(i)]; ok {
+				st.ghost[rk] = x.freshConst(st, "lastret", s)
 			} else if i < 3 {
 				// a result recorded only inside the loop must be one value per iteration at the head
-				// (an invariant relates it to the loop's variables); integer / tag / identity sort
+				// (an invariant relates it to the loop's variables)
 				st.ghost[rk] = x.freshConst(st, "lastret", SInt)
 			}
 		}
@@ -361,6 +367,33 @@ func (x *Exec) loopCallNames(fr *Frame, h int, li *loopInfo) map[string]bool {
 				case *ssa.Function:
 					out[externName(f)] = true
 					out[fnRelName(f)] = true
+					if x.loopSortHint == nil {
+						x.loopSortHint = map[string]string{}
+					}
+					sortOf := func(t types.Type) string {
+						if b, ok := t.Underlying().(*types.Basic); ok {
+							switch {
+							case b.Info()&types.IsString != 0:
+								return SStr
+							case b.Info()&types.IsBoolean != 0:
+								return SBool
+							}
+						}
+						return ""
+					}
+					for _, nm := range []string{canonCall(externName(f)), canonCall(fnRelName(f))} {
+						for i, a := range c.Args {
+							if s := sortOf(a.Type()); s != "" {
+								x.loopSortHint["a:"+nm+":"+fmt.Sprint(i)] = s
+							}
+						}
+						res := f.Signature.Results()
+						for i := 0; i < res.Len(); i++ {
+							if s := sortOf(res.At(i).Type()); s != "" {
+								x.loopSortHint["r:"+nm+":"+fmt.Sprint(i)] = s
+							}
+						}
+					}
 					switch externName(f) {
 					case "(*os.File).WriteAt":
 						out["file.WriteAt"] = true
